@@ -120,6 +120,7 @@ func identify(e *eb.StoredEvent, padded bool) string {
 
 type storeInst struct {
 	bus     *eb.EventBus // lazily: a bus persisting into st (op "pub")
+	notify  int          // the record the persistence error handler publishes when it is called next (0 = none)
 	pubSeen string
 	perrs   int          // calls of the bus's persistence error handler
 	flaky   *atomic.Bool // durable-streams: the gateway answers the next POST with 502 AFTER the server has stored it
@@ -415,14 +416,22 @@ func storeDomain(lines []string) []string {
 				delete(sc.insts, n)
 			}
 			out = append(out, "drop")
-		case "pub", "replaypub", "pubflaky", "pubhookpanic", "pubdead":
+		case "pub", "replaypub", "pubflaky", "pubhookpanic", "pubdead", "pubdeadnotify":
 			// publish through a bus built on the store (options in either order, persistence timeout set):
 			// the handler looks the log up while it runs
 			in := sc.cur
 			rec := atoi(f[1])
 			if in.bus == nil {
 				opts := []eb.Option{eb.WithStore(in.st), eb.WithPersistenceTimeout(2 * time.Second),
-					eb.WithPersistenceErrorHandler(func(any, reflect.Type, error) { in.perrs++ }),
+					eb.WithPersistenceErrorHandler(func(any, reflect.Type, error) {
+						in.perrs++
+						if in.notify > 0 {
+							// the error handler re-enters the bus: it publishes the next record (callbacks run with no bus lock held)
+							r := in.notify
+							in.notify = 0
+							eb.Publish(in.bus, mkPub(r))
+						}
+					}),
 					eb.WithPanicHandler(func(any, reflect.Type, any) {}),
 					// a validating before-publish hook that panics for some events (record numbers ending in 999)
 					eb.WithBeforePublish(func(t reflect.Type, e any) {
@@ -475,6 +484,29 @@ func storeDomain(lines []string) []string {
 				default:
 					out = append(out, fmt.Sprintf("!pubhookpanic recorded=%v handler=%s", recorded, in.pubSeen))
 				}
+				break
+			}
+			if f[0] == "pubdeadnotify" {
+				// like pubdead, but the persistence error handler publishes the next record on the same bus
+				if sc.kind == "ds" {
+					out = append(out, "pubdeadnotify skip")
+					break
+				}
+				before := in.perrs
+				in.notify = rec + 1
+				dctx, dcancel := context.WithCancel(context.Background())
+				dcancel()
+				done := make(chan struct{})
+				go func() { eb.PublishContext(in.bus, dctx, mkPub(rec)); close(done) }()
+				select {
+				case <-done:
+				case <-time.After(4 * time.Second):
+					out = append(out, "!pubdeadnotify a persistence error handler that publishes blocks the publish for ever")
+					return out
+				}
+				in.notify = 0
+				evs, _, _ := in.st.Read(context.Background(), eb.OffsetOldest, 0)
+				out = append(out, fmt.Sprintf("pubdeadnotify n=%d perr=%d seen=%s", len(evs), in.perrs-before, strings.ReplaceAll(in.pubSeen, " ", ",")))
 				break
 			}
 			if f[0] == "pubdead" {
